@@ -6,6 +6,7 @@ let families : (string * (string list -> string)) list = [
   "stack", Fam_stack.run;
   "catalog", Fam_catalog.run;
   "ids", Fam_ids.run;
+  "config", Fam_config.run;
   "connw", Fam_connw.run;
   "storage", Fam_storage.run;
   "db", Fam_storage.run_db;
